@@ -42,6 +42,9 @@ def one(d):
 
 def main():
     args = sys.argv[1:]
+    write_meta = False
+    if args and args[0] == "--write-meta":
+        write_meta = True; args = args[1:]
     j = 16
     if args and args[0] == "-j":
         j = int(args[1]); args = args[2:]
@@ -60,6 +63,10 @@ def main():
             print(f"PATCH-FAILED {d}: {errs}")
             continue
         byown = any(p == own for p, _ in fired)
+        if write_meta and os.path.exists(os.path.join(d, "meta.json")):
+            meta = json.load(open(os.path.join(d, "meta.json")))
+            meta["caught_by"] = {p: v[0] for p, v in fired}
+            json.dump(meta, open(os.path.join(d, "meta.json"), "w"), indent=1)
         tag = "CAUGHT-OWN" if byown else ("CAUGHT-OTHER" if fired else "MISSED")
         caught += bool(fired); own_caught += byown
         print(f"{tag:12} {d} (labelled {own})")
